@@ -1268,7 +1268,7 @@ impl Server {
         let mut query = String::from("");
 
         for (key, value) in parameter_diff {
-            query.push_str(&format!("SET {} TO '{}';", key, value));
+            query.push_str(&format!("SET {} TO {};", key, quote_literal(&value)));
         }
 
         let res = self.query(&query).await;
@@ -1424,6 +1424,28 @@ impl Server {
 
         parse_query_message(&mut message).await
     }
+}
+
+/// Quote a string as an SQL literal like Postgres' quote_literal() does: single quotes
+/// are doubled; if there is a backslash, backslashes are doubled too and the literal
+/// is written as E'...' so it reads the same whatever standard_conforming_strings is.
+fn quote_literal(value: &str) -> String {
+    let mut quoted = String::with_capacity(value.len() + 3);
+
+    if value.contains('\\') {
+        quoted.push('E');
+    }
+
+    quoted.push('\'');
+    for c in value.chars() {
+        if c == '\'' || c == '\\' {
+            quoted.push(c);
+        }
+        quoted.push(c);
+    }
+    quoted.push('\'');
+
+    quoted
 }
 
 async fn parse_query_message(message: &mut BytesMut) -> Result<Vec<String>, Error> {
